@@ -162,11 +162,30 @@ func evalC14via(in []byte, via string) (vs []*Violation, accepted bool) {
 			}
 		}
 	}
+	// ':' is the delimiter between user and password: the user component holds none (not asserted for the library's
+	// bracket back-track, where text first read as [host]:port;params becomes the user when an '@' follows)
+	if us := safeGet(in, u.User); len(us) > 0 && us[0] != '[' && bytes.IndexByte(us, ':') >= 0 {
+		add("delimiters-before-at-belong-to-user", "colon-inside-user", fmt.Sprintf("user %q pass %q", us, safeGet(in, u.Pass)))
+	}
 	if h := safeGet(in, u.Host); len(h) > 0 && h[0] == '[' && h[len(h)-1] != ']' {
 		add("ipv6-host-keeps-brackets", "bracket", fmt.Sprintf("host %q", h))
 	}
 	if present(u.Port) {
-		// PortNo consistency is C10's; here only that the port text is digits
+		// the number reported for the port component is the one written there (the full numeric domain is C10's)
+		if pt := safeGet(in, u.Port); len(pt) > 0 && len(pt) <= 5 {
+			v, ok := 0, true
+			for _, c := range pt {
+				if c < '0' || c > '9' {
+					ok = false
+					break
+				}
+				v = v*10 + int(c-'0')
+			}
+			if ok && v <= 65535 && int(u.PortNo) != v {
+				add("port-number-is-the-port-component", "portno", fmt.Sprintf("port %q PortNo %d", pt, u.PortNo))
+			}
+		}
+		// here only that the port text is digits
 		for _, c := range safeGet(in, u.Port) {
 			if c < '0' || c > '9' {
 				add("port-digits", "nondigit", fmt.Sprintf("port %q", safeGet(in, u.Port)))
@@ -178,7 +197,7 @@ func evalC14via(in []byte, via string) (vs []*Violation, accepted bool) {
 }
 
 func checkC14(r *Run) {
-	r.Assume = []string{"alphabet a 1 : @ ; ? & = [ ] . / after sip:/sips:/tel: (and case variants of the scheme); longer inputs are outside the bound"}
+	r.Assume = []string{"a user that starts with '[' (bracket back-track of malformed input) may contain ':'; any other user component contains none", "alphabet a 1 : @ ; ? & = [ ] . / after sip:/sips:/tel: (and case variants of the scheme); longer inputs are outside the bound"}
 	sig := []byte("a1:@;?&=[]./")
 	L := r.pick(8, 9)
 	viaLen := r.pick(5, 6)
@@ -215,6 +234,35 @@ func checkC14(r *Run) {
 			}
 		})
 		r.noteSpace("ParseURI after "+sch, 0, 0, 0)
+	}
+	// numeric-looking user / password parts before a port (digits that are not the port must not count for it)
+	for _, sch := range []string{"sip:", "sips:"} {
+		for _, us := range []string{"u", "7", "65536", "u;p=1"} {
+			for _, pw := range []string{"", "1", "65535", "65536", "123456", "00099999", "99999x", "4294967296"} {
+				for _, h := range []string{"h", "[::1]", "9"} {
+					for _, pt := range []string{"", "1", "5060", "65535", "00080"} {
+						u := sch + us
+						if pw != "" {
+							u += ":" + pw
+						}
+						u += "@" + h
+						if pt != "" {
+							u += ":" + pt
+						}
+						for _, tail := range []string{"", ";lr", "?a=1"} {
+							for _, via := range []string{"", "parsecmp1"} {
+								vs, _ := evalC14via([]byte(u+tail), via)
+								r.St.Evals++
+								r.St.Transitions++
+								for _, v := range vs {
+									r.Col.add(v)
+								}
+							}
+						}
+					}
+				}
+			}
+		}
 	}
 	// a few structured long URIs (beyond the byte bound)
 	for _, s := range []string{"sip:user;x=1?y:pass@host.example.com:5060;transport=udp;lr?a=1&b=2", "sips:[2001:db8::1]:5061;maddr=[::1]", "sip:u?h@[::1]", "sip:a;b:c;d@e"} {
